@@ -1,2 +1,2 @@
 fn main() {}
-// a8e6c462
+// 746b293b
